@@ -422,7 +422,8 @@ def run(tier, seed):
                 "and read / JSON / logical types / decimals of three precisions) on distinct streams sharing parsed schemas; "
                 "thread A pre-empted at a line event inside the package, thread B run to completion, A resumed — for every "
                 "chosen pre-emption point (quick: up to 24 evenly spaced points plus every point inside functions that touch a "
-                "module-level state object; thorough: every point); results compared with the sequential ones")
+                "module-level state object; thorough: up to 400 evenly spaced points, every point of operations shorter than that); "
+                "results compared with the sequential ones")
     run.lean(TARGETS, THEOREMS)
     ops, ops_shared, refresh = make_ops(seed)
     alone = {k: outcome(f) for k, f in ops.items()}
@@ -443,7 +444,7 @@ def run(tier, seed):
             run.fail({"op": k_, "first": alone[k_], "again": alone2[k_], "tags": ["sequential"]},
                      "an operation run a second time (sequentially) gives another result", kind="oracle")
     names = sorted(ops)
-    cap = 24 if tier == "quick" else 10 ** 9
+    cap = 24 if tier == "quick" else 400      # (every point of a 20 000-event operation x 20 partners would take hours)
     # functions that touch module-level state objects (from the effect table's local summaries)
     import gen_effects
     mods, summ, entries, state_objects = gen_effects.analyse(REPO)
